@@ -473,16 +473,52 @@ def factor_exact(chk, F):
 def decompose(chk, F):
     fn = F.find(CORE, "algorithms::fast_decompose::fast_decompose")
     fk = "rink_core::algorithms::fast_decompose::fast_decompose"
-    h = F.hir_of(fn)
-    txt = "\n".join(hirpp.tree(h["body"]))
-    ok = "Option::Some((name, unit, pow, score))" in txt and "(value Div &num.powi(pow)).unwrap().unit" in txt and "res.insert(BaseUnit::new(&Deref(Deref(name))), (pow as " in txt.replace("<impl", "")
-    ok2 = "number::Number{value: Numeric::one(), unit: unit.clone()}" in txt
+    # decided on the MIR (no local names): `best` is the one local that holds Some((name, unit, exponent, score)) tuples
+    tuples = [(i, st) for i, j, st in fn.stmts() if st["rv"].get("k") == "agg" and st["rv"].get("agg") == "tuple" and len(st["rv"]["ops"]) == 4]
+    ok = ok2 = ok3 = False
+    detail = ""
+    if len(tuples) == 1:
+        ti, tst = tuples[0]
+        t_name, t_unit, t_exp, t_score = [fn.apath(o) for o in tst["rv"]["ops"]]
+        # (a) what is recorded was what was scored: score = complexity_score(unwrap(value / Number{1, clone(unit)}.powi(exp))) with the
+        #     same unit (the other half of the derived_units entry the name comes from) and the same exponent
+        sc = t_score
+        while sc[0][0] == "call" and sc[0][2] and not sc[1] and sc[0][1].endswith(("Option::<T>::unwrap", "complexity_score")):
+            sc = sc[0][2][0]
+        if sc[0][0] == "call" and "arith::Div<" in sc[0][1]:
+            num = sc[0][2][1]
+            if num[0][0] == "call" and num[0][1].endswith("Number::powi"):
+                base, exp = num[0][2]
+                unit_ok = base[0][0] == "agg" and str(base[0][1]).endswith("number::Number::Number") and len(base[0][2]) == 2 and \
+                    base[0][2][0][0][0] == "call" and base[0][2][0][0][1].endswith("Numeric::one") and \
+                    base[0][2][1][0][0] == "call" and base[0][2][1][0][1].endswith("Clone>::clone") and facts.ap_match(base[0][2][1][0][2][0], t_unit)
+                same_entry = t_unit[1][-1:] == ("0",) and t_name[1][-1:] == ("1",) and facts.ap_match((t_unit[0], t_unit[1][:-1]), (t_name[0], t_name[1][:-1])) and "arg2" in ap_str(t_unit)
+                ok3 = unit_ok and same_entry and facts.ap_match(exp, t_exp) and ap_str(sc[0][2][0]) == "arg1"
+                detail = "unit %s, entry %s, exponent %s" % (unit_ok, same_entry, facts.ap_match(exp, t_exp))
+        # (b) what is stored is what was recorded: res = (value / Number{1, clone(best.1)}.powi(best.2)).unit; res.insert(BaseUnit::new(best.0), best.2)
+        best_l = tst["place"]["l"] if not tst["place"]["p"] else None
+        ins = [(bb, t) for bb, t in fn.calls() if "callee" in t and t["callee"]["path"].endswith("Dimensionality::insert")]
+        if len(ins) == 1:
+            r, k, e = [fn.apath(a) for a in ins[0][1]["args"]]
+            def comp(ap):
+                """which component of the best tuple an access path is (through `as Some .0`), or None"""
+                pr = [p_ for p_ in ap[1] if p_ not in ("as Some",)]
+                return pr[-1] if ap[0][0] == "local" and len(pr) >= 2 and pr[0] == "0" and str(pr[-1]).isdigit() else None
+            key_ok = k[0][0] == "call" and k[0][1].endswith("BaseUnit::new") and comp(k[0][2][0]) == "0"
+            e2 = e
+            while e2[0][0] == "cast" and not e2[1]:
+                e2 = e2[0][2]
+            exp_ok = comp(e2) == "2"
+            rs = ap_str(r)
+            quot_ok = "arith::Div<" in rs and rs.endswith(".unit") and "Number::powi(" in rs and rs.count("as Some.0.1") >= 1 and rs.count("as Some.0.2") >= 1 and "div(arg1," in rs.replace(">>::div(", ">>::div(").replace("::div(", "div(")[-len(rs):]
+            ok = key_ok and exp_ok and quot_ok
+            ok2 = "Numeric::one()" in rs
+            detail += "; key %s, exponent %s, quotient %s" % (key_ok, exp_ok, quot_ok)
     chk.decide(ok and ok2, "decompose", fk, "stored-exponent-is-divided-exponent", fn.where(),
-               "the derived unit is stored with the same `pow` used in `value / unit^pow`, under the name paired with that unit",
-               "fast_decompose does not store (name, pow) of the same best tuple it divided by")
+               "the derived unit is stored with the same exponent used in `value / unit^exponent`, under the name paired with that unit",
+               "fast_decompose does not store (name, exponent) of the same best tuple it divided by (%s)" % detail)
     # candidates scored with the same i that is recorded
-    ok3 = "(value Div &num.powi(i)).unwrap()" in txt and "best = Option::Some((name, unit, i, score))" in txt
-    chk.decide(ok3, "decompose", fk, "best-records-scored-exponent", fn.where(), "the recorded exponent is the one that was scored", "the exponent recorded in `best` is not the one used for scoring")
+    chk.decide(ok3, "decompose", fk, "best-records-scored-exponent", fn.where(), "the recorded exponent is the one that was scored", "the exponent recorded in `best` is not the one used for scoring (%s)" % detail)
     pu = F.find(CORE, "types::number::Number::pretty_unit")
     ok = False
     for c in F.closures_of(pu):
